@@ -227,12 +227,15 @@ void flow_prop(DP &dp, const ref::Bytes &sched, Ctx &ctx, bool with_stall) {
 		unsigned kind = dp.weighted({10, 7, 2, with_stall ? 4u : 0u});
 		Node &n = nodes[dp.pick((unsigned) nodes.size())];
 		if (kind == 0) {
-			int fi = fn_index(REQ_FNS[dp.pick(sizeof REQ_FNS / sizeof *REQ_FNS)]);
+			// mostly the short list of requests that exercise the budget well; now and then any of the constructors, so that every
+			// row of the response table is compared with the reference copy sooner or later
+			int fi = dp.chance(80) ? (int) dp.pick((unsigned) send_table().size()) : fn_index(REQ_FNS[dp.pick(sizeof REQ_FNS / sizeof *REQ_FNS)]);
 			SendCall c = draw_send(dp, true, fi);
 			c.addr = n.addr;
 			bool inr = false;
 			ref::Msg m = expected_msg(c, &inr, nullptr);
-			if (!inr) continue;
+			const char *fname = send_table()[(size_t) fi].name;
+			if (!inr || !strcmp(fname, "bidib_send_sys_enable") || !strcmp(fname, "bidib_send_sys_disable")) continue;          // out of range, or no node parameter (always the interface)
 			Sub sb;
 			sb.m = m;
 			sb.size = ref::RESP[m.type & 0x7f].size;
